@@ -18,7 +18,7 @@ From Rumqtt Require Import Router.WindowFrame Router.Window Router.WindowStep Ro
                            Router.ExactSweep Router.ExactThm.
 From Rumqtt Require Router.Session Router.SessionInv Router.SessionIds.
 From Rumqtt Require Import Router.TraceRun Router.TraceRunHeld Router.TraceRunInv Router.TraceRunPkt Router.TraceRunSweep
-                           Router.TraceRunStep Router.TraceRunThm Router.TraceRunContent Router.TraceResume.
+                           Router.TraceRunBound Router.TraceRunStep Router.TraceRunThm Router.TraceRunContent Router.TraceResume.
 From Rumqtt Require Import Router.Model Router.RunDefs.
 From Coq Require Import List ZifyBool ZifyN ZifyNat Sorted.
 Import ListNotations.
@@ -103,83 +103,6 @@ Lemma first_cursor_hd infl i :
 Proof.
   induction infl as [|[[pk f] c] r IH]; [reflexivity|]. cbn [Session.first_cursor]. unfold wnd_offs. cbn [flat_map]. fold (wnd_offs r i).
   destruct (f =? i); [destruct c as [cu|]|]; cbn [app]; try exact IH; [reflexivity|destruct c; exact IH].
-Qed.
-
-(* ------------------------------------------------------------------ windows only lose their head *)
-Definition osuf (o o' : outgoing) : Prop :=
-  o_link o' = o_link o /\ exists l, o_inflight o = l ++ o_inflight o'.
-
-Lemma osuf_refl o : osuf o o.
-Proof. split; [reflexivity|exists []; reflexivity]. Qed.
-Lemma osuf_trans a b c : osuf a b -> osuf b c -> osuf a c.
-Proof. intros [A1 (l1 & A2)] [B1 (l2 & B2)]. split; [congruence|]. exists (l1 ++ l2). rewrite A2, B2, app_assoc. reflexivity. Qed.
-
-Definition wsuf (st st' : rstate) : Prop :=
-  forall c o', slab_get (r_obufs st') c = Some o' -> exists o, slab_get (r_obufs st) c = Some o /\ osuf o o'.
-
-Lemma wsuf_refl st : wsuf st st.
-Proof. intros c o' H. exists o'. split; [exact H|apply osuf_refl]. Qed.
-Lemma wsuf_eq st st' : r_obufs st' = r_obufs st -> wsuf st st'.
-Proof. intros E c o' H. rewrite E in H. exists o'. split; [exact H|apply osuf_refl]. Qed.
-Lemma wsuf_trans a b c : wsuf a b -> wsuf b c -> wsuf a c.
-Proof.
-  intros A B k o3 H. destruct (B _ _ H) as (o2 & H2 & S2). destruct (A _ _ H2) as (o1 & H1 & S1).
-  exists o1. split; [exact H1|eapply osuf_trans; eassumption].
-Qed.
-
-Lemma register_ack_osuf o pkid o' ok : register_ack o pkid = (o', ok) -> osuf o o'.
-Proof.
-  unfold register_ack. intros H. destruct (o_inflight o) as [| [[h x] y] r] eqn:E; [inv_ok; apply osuf_refl|].
-  destruct (pkid =? h); inv_ok; [|apply osuf_refl]. split; [reflexivity|]. exists [(h, x, y)]. rewrite E. reflexivity.
-Qed.
-Lemma register_pubcomp_osuf o pkid o' ok : register_pubcomp o pkid = (o', ok) -> osuf o o'.
-Proof.
-  unfold register_pubcomp. intros H. destruct (o_pubrels o) as [| h r]; [inv_ok; apply osuf_refl|].
-  destruct (pkid =? h); inv_ok; [|apply osuf_refl]. split; [reflexivity|exists []; reflexivity].
-Qed.
-Lemma osuf_pubrels o v : osuf o (set_o_pubrels o v).
-Proof. split; [reflexivity|exists []; reflexivity]. Qed.
-
-Lemma wsuf_put st id o o' : slab_get (r_obufs st) id = Some o -> osuf o o' -> wsuf st (put_obuf st id o').
-Proof.
-  intros G S c o2 H. revert H. rsimpl. intros H. destruct (N.eq_dec c id) as [-> | Hne].
-  - rewrite (slab_get_put_occ _ _ _ _ G) in H. inversion H; subst. eauto.
-  - rewrite slab_get_put_other in H by congruence. exists o2. split; [exact H|apply osuf_refl].
-Qed.
-
-Lemma wsuf_obufs st st2 st' : r_obufs st' = r_obufs st2 -> wsuf st st2 -> wsuf st st'.
-Proof. intros E A c o' H. rewrite E in H. now apply A. Qed.
-
-Lemma handle_packet_wsuf st id client pk fl st' fl' brk :
-  handle_packet st id client pk fl = Ok (st', fl', brk) -> wsuf st st'.
-Proof.
-  unfold handle_packet, get_obuf, get_acks, get_conn, commit_ack, get_acks. intros H.
-  destruct pk; break_all H; inv_ok; keeps2; unfold keep in *; rsimpl;
-  repeat match goal with E : (_, _, _) = (_, _, _) |- _ => inversion E; clear E end.
-  all: try (apply wsuf_eq; rsimpl; congruence).
-  all: repeat match goal with
-       | E : register_ack _ _ = _ |- _ => apply register_ack_osuf in E
-       | E : register_pubcomp _ _ = _ |- _ => apply register_pubcomp_osuf in E
-       end.
-  all: try (eapply wsuf_put; eassumption).
-  all: try (eapply wsuf_obufs; [| eapply wsuf_put; [eassumption |]]; [rsimpl; eassumption | eassumption]).
-Qed.
-
-Lemma handle_packets_wsuf pks : forall st id client fl st' fl',
-  handle_packets st id client pks fl = Ok (st', fl') -> wsuf st st'.
-Proof.
-  induction pks as [| pk r IH]; intros st id client fl st' fl' H; cbn [handle_packets] in H.
-  - inv_ok. apply wsuf_refl.
-  - apply bind_ok in H as ([[st1 fl1] brk] & H1 & H). apply handle_packet_wsuf in H1.
-    destruct brk; [inv_ok; exact H1 |]. apply IH in H. eapply wsuf_trans; eassumption.
-Qed.
-
-Lemma handle_disconnection_wsuf st id reason st' : handle_disconnection st id reason = Ok st' -> wsuf st st'.
-Proof.
-  intros H. destruct (slab_get (r_obufs st) id) as [o0 |] eqn:G.
-  - destruct (handle_disconnection_frame _ _ _ _ _ H G) as (F1 & _).
-    intros c o' Ho. rewrite F1 in Ho. destruct (c =? id); [discriminate|]. exists o'. split; [exact Ho|apply osuf_refl].
-  - rewrite (handle_disconnection_noop _ _ _ G) in H. inv_ok. apply wsuf_refl.
 Qed.
 
 (* ------------------------------------------------------------------ one sweep: what it appends to the window *)
@@ -392,14 +315,6 @@ Variables L i : N.
 Definition WI (st : rstate) (tr : list dev) : Prop :=
   forall c o, slab_get (r_obufs st) c = Some o -> o_link o = L ->
   exists l1, qo L i tr = l1 ++ wnd_offs (o_inflight o) i.
-
-(** every window descends from the window under the same key by losing a prefix, or is empty *)
-Definition wsufn (st st' : rstate) : Prop :=
-  forall c o', slab_get (r_obufs st') c = Some o' ->
-  o_inflight o' = [] \/ exists o, slab_get (r_obufs st) c = Some o /\ osuf o o'.
-
-Lemma wsuf_wsufn st st' : wsuf st st' -> wsufn st st'.
-Proof. intros H c o' Ho. right. now apply H. Qed.
 
 Lemma wi_frame st st' tr evs : wsufn st st' -> qo L i evs = [] -> WI st tr -> WI st' (tr ++ evs).
 Proof.
